@@ -1054,12 +1054,18 @@ func checkRestore(t fataler, w *world.World, items []issued, where string) {
 	if len(items) == 0 {
 		return
 	}
-	msgs := make(cashu.BlindedMessages, 0, len(items)+1)
-	for _, it := range items {
+	// blinded messages that were never signed - in front of, among and behind the signed ones - must not come back,
+	// and must not shift which signature is paired with which output
+	nevers := w.MakeOutputs([]uint64{1, 1, 1}, w.ActiveID)
+	never := nevers[2]
+	msgs := make(cashu.BlindedMessages, 0, len(items)+3)
+	msgs = append(msgs, nevers[0].Msg)
+	for i, it := range items {
+		if i == (len(items)+1)/2 {
+			msgs = append(msgs, nevers[1].Msg)
+		}
 		msgs = append(msgs, it.out.Msg)
 	}
-	// one blinded message that was never signed must not come back
-	never := w.MakeOutputs([]uint64{1}, w.ActiveID)[0]
 	msgs = append(msgs, never.Msg)
 	outs, sigs, err := w.Restore(msgs)
 	if err != nil {
@@ -1074,8 +1080,10 @@ func checkRestore(t fataler, w *world.World, items []issued, where string) {
 	for i, o := range outs {
 		got[o.B_] = sigs[i]
 	}
-	if _, bad := got[never.Msg.B_]; bad {
-		violate(t, "restore_returns_signature_never_made", "%s: B_ %s", where, never.Msg.B_)
+	for _, nv := range nevers {
+		if _, bad := got[nv.Msg.B_]; bad {
+			violate(t, "restore_returns_signature_never_made", "%s: B_ %s", where, nv.Msg.B_)
+		}
 	}
 	for _, it := range items {
 		g, ok := got[it.out.Msg.B_]
